@@ -306,7 +306,7 @@ pub fn gen_recorder(rng: &mut Rng, cfg: &GenCfg) -> RecorderSpec {
         SizeClass::Medium => 41 + rng.usize_below(360),
         // more than 1024 rows crosses the initial column capacity; the quick tier keeps these runs
         // short (just past the boundary), the thorough tier goes to ~4000 rows
-        SizeClass::Huge => 65_537 + rng.usize_below(3000),
+        SizeClass::Huge => 65_530 + rng.usize_below(3000),
         SizeClass::Large => {
             if cfg.allow_large {
                 1025 + rng.usize_below(3000)
